@@ -24,7 +24,7 @@ use {
 
 const NETWORK: Network = Network::Regtest;
 
-fn address_pool() -> &'static Vec<Address> {
+pub fn address_pool() -> &'static Vec<Address> {
   static POOL: OnceLock<Vec<Address>> = OnceLock::new();
   POOL.get_or_init(|| {
     let secp = Secp256k1::new();
